@@ -72,7 +72,7 @@ def gen_cmp(rnd, n):
             if not arr:
                 ph["f"] = [hx(rnd.choice([0.0, 1e-20, -1e-20, 2.0 ** -60, -(2.0 ** -55), f]))]
         out.append({"ev": "cmp", "op": op, "ord": rnd.choice(["po", "op"]), "ph": ph, "ot": o,
-                    "form": rnd.choice(["operator", "ufunc"])})
+                    "form": rnd.choice(["operator", "operator", "ufunc", "ufunc-out", "ufunc-where"])})
     # imaginary phases: equality only
     for _ in range(max(2, n // 25)):
         c, f = count(rnd), rnd.uniform(-0.5, 0.5)
@@ -158,7 +158,7 @@ def gen_hist(rnd, n):
             steps.append(red())
             if rnd.random() < 0.3:
                 steps.append({"do": "cmp", "op": rnd.choice(["lt", "le", "eq", "ne", "ge", "gt"]),
-                              "form": rnd.choice([None, "ufunc"]),
+                              "form": rnd.choice([None, "ufunc", "ufunc-out", "ufunc-where"]),
                               "ot": {"kind": "phase", "i": [hx(c)], "f": [hx(f)], "im": False, "shape": None}})
         out.append({"ev": "hist", "ph": ph, "steps": steps})
     return out
